@@ -1,5 +1,5 @@
 """C18 — rank-decomposition trees: cache invalidation before tree surgery, canonical cache keys, annealer best tree, distinct indices."""
-from .. import hir, zone, rencap
+from .. import hir, paths, zone, rencap
 from ..controls import fixture
 
 TREE = 'rankwidth::decomp_tree::DecompTree'
@@ -260,12 +260,115 @@ def distinct_index_sites(f):
     return [(by[i][0], by[i][1], '; '.join(sorted(set(by[i][2])))) for i in order]
 
 
+# ---------------------------------------------------------------- D4: size preconditions of the moves, first-occurrence replacement, zero divisor
+
+def early_return_bound(f, field):
+    """largest K such that the function returns early when `self.<field>.len() < K` (None if there is no such guard)"""
+    best = None
+    for s0 in hir.stmts_of(f['hir']):
+        s1 = hir.strip(s0)
+        if s1.get('k') != 'If' or s1.get('else'):
+            continue
+        st = [hir.strip(x) for x in hir.stmts_of(s1['then'])]
+        if not (st and st[-1].get('k') == 'Ret'):
+            continue
+        c = hir.strip(s1['cond'])
+        if c.get('k') == 'Binary' and c['op'] in ('Lt', 'Le'):
+            l = hir.strip(c['l'])
+            v = hir.lit_int(hir.strip(c['r']))
+            if v is not None and l.get('k') == 'MethodCall' and l['name'] == 'len' and hir.strip(l['recv']).get('k') == 'Field' and hir.strip(l['recv'])['name'] == field:
+                k = v if c['op'] == 'Lt' else v + 1
+                best = k if best is None else max(best, k)
+    return best
+
+
+def size_preconditions(facts):
+    """[(key, ok, msg)]"""
+    res = []
+    f = facts['fns'][TREE + '::swap_random_leaves']
+    k = early_return_bound(f, 'leaves')
+    # alternatively an explicit guard that a parent is not the other leaf
+    explicit = any(n.get('k') == 'Binary' and n['op'] in ('Eq', 'Ne') and {hir.local_name(n['l']), hir.local_name(n['r'])} in ({'p1', 'l2'}, {'p2', 'l1'}) for n in hir.nodes(f['hir']))
+    res.append((TREE + '::swap_random_leaves/at-least-three-leaves', (k is not None and k >= 3) or explicit,
+                'swap_subtrees((p1,l1),(p2,l2)) needs the parents to differ from the children; in a tree with two leaves each leaf is the other\'s parent (p1 = l2, p2 = l1) and the second pair of replace_neighbor calls panics '
+                '("Old neighbor not found") — the leaf swap must return early unless there are at least three leaves (found: returns when leaves.len() < %s)' % k))
+    for m in ('move_random_subtree', 'random_local_swap'):
+        f = facts['fns'][TREE + '::' + m]
+        k = early_return_bound(f, 'nodes')
+        res.append((TREE + '::%s/at-least-six-nodes' % m, k is not None and k >= 6, '%s needs two adjacent interior nodes / a path of four nodes, i.e. a cubic tree with at least 6 nodes (found: returns when nodes.len() < %s)' % (m, k)))
+    # move_subtree(&path) only with path.len() >= 4: the loop that draws the path breaks only under that test
+    f = facts['fns'][TREE + '::move_random_subtree']
+    ok = False
+    for lp in hir.find(f['hir'], 'Loop'):
+        brs = [n for n in hir.nodes(lp['body'], into_closures=False) if n.get('k') == 'Break']
+        pm = hir.parent_map(lp)
+        good = 0
+        for b in brs:
+            for c in paths.dominating_conds(b, pm):
+                if c[0] == 'cond' and c[2]:
+                    e = hir.strip(c[1])
+                    if e.get('k') == 'Binary' and e['op'] in ('Ge', 'Gt') and hir.strip(e['l']).get('k') == 'MethodCall' and hir.strip(e['l'])['name'] == 'len':
+                        v = hir.lit_int(hir.strip(e['r']))
+                        if v is not None and (v if e['op'] == 'Ge' else v + 1) >= 4:
+                            good += 1
+        ok = bool(brs) and good == len(brs)
+    res.append((TREE + '::move_random_subtree/path-of-four', ok, 'move_subtree reads path[0..=2] and the last two entries as five roles a, a1, a2, b1, b: the drawn path must have at least 4 nodes before it is used'))
+    return res
+
+
+def first_occurrence_only(f):
+    """DecompNode::replace_neighbor rewrites exactly the first occurrence of `old` (swap_subtrees relies on it when two siblings are swapped: the parent transiently holds
+    the same neighbour twice) and panics if there is none"""
+    fors = hir.find(f['hir'], 'For')
+    if len(fors) != 1:
+        return None, 'replace_neighbor is no longer a single loop over the neighbour slots (not-established-by-recognised-idiom)'
+    asg = [n for n in hir.nodes(fors[0]['body']) if n.get('k') == 'Assign']
+    if len(asg) != 1:
+        return False, 'expected exactly one slot assignment in the loop, found %d' % len(asg)
+    pm = hir.parent_map(fors[0])
+    blk = None
+    for par, slot in hir.ancestors(asg[0], pm):
+        if par.get('k') == 'Block':
+            blk = par
+            break
+    st = [hir.strip(x) for x in hir.stmts_of(blk)]
+    i = [j for j, x in enumerate(st) if x is asg[0] or any(y is asg[0] for y in hir.nodes(x))][0]
+    stops = any(x.get('k') in ('Ret', 'Break') for x in st[i + 1:])
+    tail = hir.stmts_of(f['hir'])[-1] if hir.stmts_of(f['hir']) else None
+    panics = tail is not None and (hir.diverges(hir.strip(tail)) or hir.strip(tail).get('ty') == '!')
+    if not stops:
+        return False, ('after replacing a slot the loop goes on: every occurrence of `old` is rewritten. swap_subtrees swaps two sibling leaves through a parent that transiently lists the same neighbour twice '
+                       '([x, l2, l2]); rewriting both turns it into [x, l1, l1] — the tree is no longer cubic and one leaf is orphaned')
+    return True, '' if panics else 'no panic when the neighbour is missing'
+
+
+def zero_divisors(f):
+    """float divisions whose divisor is an integer quantity that can be 0 (a score / width cast to f64) must be dominated by a non-zero test.  [(text, ok)]"""
+    out = []
+    pm = hir.parent_map(f['hir'])
+    for n in hir.nodes(f['hir']):
+        if n.get('k') == 'Binary' and n['op'] == 'Div':
+            d = hir.strip(n['r'])
+            if d.get('k') == 'Cast' and hir.local(hir.strip(d['e'])) and 'usize' in (hir.strip(d['e']).get('ty') or ''):
+                lid = hir.local(hir.strip(d['e']))[1]
+                ok = False
+                for c in paths.dominating_conds(n, pm):
+                    if c[0] == 'cond':
+                        e = hir.strip(c[1])
+                        if e.get('k') == 'Binary' and hir.local(hir.strip(e['l'])) and hir.local(hir.strip(e['l']))[1] == lid and hir.lit_int(hir.strip(e['r'])) == 0:
+                            if (e['op'] in ('Gt', 'Ne') and c[2]) or (e['op'] in ('Eq', 'Le') and not c[2]):
+                                ok = True
+                out.append((hir.pp(n)[:70], ok, hir.local(hir.strip(d['e']))[0]))
+    return out
+
+
 def run(ck):
     facts = ck.facts
     ck.decided('D1 every swap_subtrees is dominated by invalidation of both removed edges and the edges between them (clearing loop over path(c1,c2), or the three explicit clears, or clear_ranks()); move_subtree by clear_ranks(); '
                'the surgery primitives are called only from the three move functions; every keyed access to the rank cache uses the canonical (min,max) key; the cache field is private',
                'D2 the annealer replaces its best tree only under width < best_width (updated alongside), initialises it from the starting tree, compares the width of the candidate it stores, and returns it',
                'D3 the two-distinct-indices idioms in swap_random_leaves and random_local_swap are proved distinct and in range (zone domain, all paths)')
+    ck.decided('D4 the moves return early unless the tree is large enough for them (leaf swap: 3 leaves; local swap and subtree move: 6 nodes; a path of 4 nodes before move_subtree); replace_neighbor rewrites the first occurrence only; the annealer does not divide by an integer score that can be 0')
     ck.not_decided('validity of the tree after surgery (cubic, leaves = vertices)', 'recomputed widths equal cached widths as values', 'absence of panics in the pointer surgery')
     nsw = 0
     for key in (TREE + '::swap_random_leaves', TREE + '::random_local_swap'):
@@ -349,6 +452,21 @@ def run(ck):
             nd += 1
             ck.ob('E3-distinct', key + '/index-%d' % i, ok, ck.site(key, node), 'cannot prove the two random indices distinct and in range at `%s`: %s' % (hir.pp(node)[:40], why), sample={'site': hir.pp(node)[:50]})
     ck.floor('E3-distinct', nd, 2)
+    # D4
+    for key, ok, msg in size_preconditions(ck.facts):
+        ck.ob('R-GUARD-size', key, ok, ck.site(key.rsplit('/', 1)[0]), msg)
+    rk = 'rankwidth::decomp_tree::DecompNode::replace_neighbor'
+    ok, msg = first_occurrence_only(ck.fn(rk))
+    if ok is None:
+        ck.violation('R-EFFECT', rk + '/first-occurrence-only', ck.site(rk), msg)
+    else:
+        ck.ob('R-EFFECT', rk + '/first-occurrence-only', ok, ck.site(rk), msg)
+    ak = [k2 for k2 in ck.facts['fns'] if k2.startswith('rankwidth::annealer::RankwidthAnnealer') and k2.endswith('::run')]
+    zd = zero_divisors(ck.fn(ak[0])) if ak else []
+    for i, (text, ok, nm) in enumerate(zd):
+        ck.ob('R-ZERO-GUARD', '%s/division-%d' % (ak[0], i), ok, ck.site(ak[0]),
+              '`%s` divides by `%s`, an integer score that is 0 for an edgeless graph: 0/0 = NaN becomes the acceptance probability and random_bool panics' % (text, nm))
+    ck.floor('R-ZERO-GUARD', len(zd), 1)
     # positive controls
     fx = fixture()
     ck.control('R-PAIR-invalidate flags a swap with a missing clear', any(not ok for ok, _n, _w, _h in swap_invalidation(fx['fns'][TREE + '::random_local_swap'])))
